@@ -103,11 +103,13 @@ class Ctx:
     def include(self, prop):
         """evaluate the rule pack of another property inside this check (its rule ids are kept): used by the end-to-end properties, whose
         truth rests on the structural clauses of the theories and of the language front end."""
+        if prop == self.prop or prop in getattr(self, 'included', []):
+            return          # packs may rest on each other: each one is evaluated once per check
+        self.included = getattr(self, 'included', []) + [prop]
         cfg0 = self.cfg
         mod = importlib.import_module('orv.rules.' + prop)
         mod.run(self)
         self.cfg = cfg0
-        self.included = getattr(self, 'included', []) + [prop]
 
     def note(self, msg):
         if msg not in self.notes:
